@@ -208,6 +208,22 @@ def run (ctx):
     ctx.ob('R-EFFECT', f, "a features reply replaces the original set and resets the deltas together", good and g.interval(lambda n: n in rsn, start=st[0]) == (1, 1) if st and rsn else False,
            "store + _reset on the same paths", f, 'D2')
 
+  # notifications that precede the features reply describe a port set the reply supersedes: nothing is buffered before the
+  # reply (the buffer attribute starts as None) and the buffer is opened by the handshake's features-reply handler
+  ci_ = con.methods.get('__init__')
+  if ci_ is not None:
+    for t, v, st, k in q.stores_in(ci_.node):
+      if isinstance(t, ast.Attribute) and t.attr == '_deferred_port_status' and norm(t.value) == 'self':
+        good = isinstance(v, ast.Constant) and v.value is None
+        ctx.ob('R-AGREE', ci_, "no port-status buffering before the features reply", good, "starts as None" if good else
+               "a new connection starts with `%s`: a PORT_STATUS that arrives before the features reply is buffered and, once the connection is up, replayed on top of the port set the reply reported - "
+               "stale deletes hide reported ports, stale adds introduce unreported ones" % norm(st), (mod, st), 'D2')
+  hsc = repo.cls(OF, 'HandshakeOpenFlowHandlers') if 'OF' in globals() else None
+  hfr = hsc.methods.get('handle_FEATURES_REPLY') if hsc is not None else None
+  if hfr is not None:
+    opens = [st for t, v, st, k in q.stores_in(hfr.node) if isinstance(t, ast.Attribute) and t.attr == '_deferred_port_status' and isinstance(v, ast.List) and not v.elts]
+    ctx.ob('R-EFFECT', hfr, "the features reply opens the port-status buffer", bool(opens), norm(opens[0]) if opens else
+           "the handshake's features-reply handler no longer starts the buffer: port status received during the rest of the handshake is lost (or an older buffer is kept)", hfr, 'D2')
   # ---- D3 reassembly ----------------------------------------------------------------
   isr = q.find_method(repo, con, '_incoming_stats_reply', 'C17'); ctx.analysed(isr)
   g = q.cfg_of(isr); ofp = isr.params[1]
